@@ -344,6 +344,184 @@ theorem src_preload_string_eq (n : Nat) (s : Py.SliceSt R) : viewR id (preload_s
   unfold preload_string SOp.preloadString
   split <;> simp only [bindS_ret] <;> exact src_preload_bytes_eq _ s
 
+/-! ### addresses -/
+
+/-- what `load_address` returns, as the hand model's address value -/
+def addrM : Py.AddrR → Addr
+  | .none => .none
+  | .ext a => .ext a.len a.external_address
+  | .std a => .std (a.anycast.map fun c => (c.depth, c.rewrite_pfx)) a.wc a.hash_part
+
+theorem sop_bind_assoc (f : SOp R α) (g : α → SOp R β) (k : β → SOp R γ) :
+    SOp.bind (SOp.bind f g) k = SOp.bind f (fun a => SOp.bind (g a) k) := by
+  funext s
+  simp only [SOp.bind]
+  rcases f s with ⟨s1, _ | a⟩ <;> rfl
+
+theorem sop_pure_bind (a : α) (k : α → SOp R β) : SOp.bind (SOp.pure a) k = k a := rfl
+theorem sop_fail_bind (k : α → SOp R β) : SOp.bind (SOp.fail : SOp R α) k = SOp.fail := rfl
+
+/-- the tail of `load_address` for `addr_std`: workchain, hash part, the address value -/
+theorem src_addr_tail (any : Option Py.AnycastV) (s : Py.SliceSt R) :
+    viewR addrM (Py.bindS (load_int 8 s) fun self wc => Py.bindS (load_bytes 32 self) fun self hash_part =>
+        (self, some (Py.AddrR.std { wc := wc, hash_part := hash_part, anycast := any }))) =
+      SOp.bind (SOp.loadInt 8) (fun wc => SOp.bind (SOp.loadBytes 32) fun h =>
+        SOp.pure (Addr.std (any.map fun c => (c.depth, c.rewrite_pfx)) wc h)) (view s) := by
+  refine viewR_bindS id _ _ _ _ _ _ (src_load_int_eq 8 s) fun s1 wc => ?_
+  refine viewR_bindS id _ _ _ _ _ _ (src_load_bytes_eq 32 s1) fun s2 h => ?_
+  rfl
+
+theorem src_load_address_eq (s : Py.SliceSt R) : viewR addrM (load_address s) = SOp.loadAddress (view s) := by
+  unfold load_address SOp.loadAddress
+  simp only [bind_eq, pure_eq]
+  refine viewR_bindS (fun (v : Nat) => (v : Int)) _ _ _ _ _ _ (src_load_uint_eq 2 s) fun s1 tag => ?_
+  by_cases h0 : tag = 0
+  · have h0' : ((tag : Nat) : Int) = 0 := by omega
+    rw [if_pos h0, if_pos h0']; rfl
+  · have h0' : ¬ ((tag : Nat) : Int) = 0 := by omega
+    rw [if_neg h0, if_neg h0']
+    by_cases h1 : tag = 1
+    · have h1' : ((tag : Nat) : Int) = 1 := by omega
+      rw [if_pos h1, if_pos h1']
+      refine viewR_bindS (fun (v : Nat) => (v : Int)) _ _ _ _ _ _ (src_load_uint_eq 9 s1) fun s2 len => ?_
+      by_cases hl : len = 0
+      · have hl' : ((len : Nat) : Int) = 0 := by omega
+        have hn : ¬ len ≠ 0 := by omega
+        rw [if_neg hn, if_pos hl', hl]; rfl
+      · have hl' : ¬ ((len : Nat) : Int) = 0 := by omega
+        rw [if_pos hl, if_neg hl', bindS_ret, Int.toNat_natCast]
+        refine viewR_bindS (fun (v : Nat) => (v : Int)) _ _ _ _ _ _ (src_load_uint_eq len s2) fun s3 v => ?_
+        rfl
+    · have h1' : ¬ ((tag : Nat) : Int) = 1 := by omega
+      rw [if_neg h1, if_neg h1']
+      refine viewR_bindS id _ _ _ _ _ _ (src_load_bool_eq s1) fun s2 any => ?_
+      have h2' : (((tag : Nat) : Int) = 2) = (tag = 2) := by
+        apply propext; constructor <;> intro h <;> omega
+      cases any with
+      | false =>
+        simp only [id_eq, Bool.false_eq_true, if_false, sop_pure_bind, h2']
+        split
+        · exact src_addr_tail none s2
+        · rfl
+      | true =>
+        simp only [id_eq, if_true, sop_bind_assoc, h2']
+        refine viewR_bindS (fun (v : Nat) => (v : Int)) _ _ _ _ _ _ (src_load_uint_eq 5 s2) fun s3 depth => ?_
+        by_cases hd : depth < 1
+        · have hd' : ((depth : Nat) : Int) < 1 := by omega
+          rw [if_pos hd, if_pos hd', sop_fail_bind]; rfl
+        · have hd' : ¬ ((depth : Nat) : Int) < 1 := by omega
+          rw [if_neg hd, if_neg hd', sop_bind_assoc, Int.toNat_natCast]
+          refine viewR_bindS (fun (v : Nat) => (v : Int)) _ _ _ _ _ _ (src_load_uint_eq depth s3) fun s4 pfx => ?_
+          rw [sop_pure_bind]
+          split
+          · exact src_addr_tail (some ⟨depth, (pfx : Int)⟩) s4
+          · rfl
+
+/-! ### `preload_address`: its own reading of none / extern / std without anycast, a copy-and-load otherwise -/
+
+theorem preload_uint_val (n : Nat) (s : Py.SliceSt R) : preload_uint n s = (s, Py.ba2intU? (s.bits.take n)) := by
+  unfold preload_uint Py.bindO
+  simp only [Py.slice, List.drop_zero]
+  cases Py.ba2intU? (s.bits.take n) <;> rfl
+
+theorem preload_bits_val (n : Nat) (s : Py.SliceSt R) : preload_bits n s = (s, some (s.bits.take n)) := by
+  unfold preload_bits; simp only [Py.slice, List.drop_zero]
+
+theorem copy_val (s : Py.SliceSt R) : copy s = (s, some ⟨s.bits, s.refs.drop s.ref_offset, 0⟩) := rfl
+
+theorem model_preloadUint_snd (n : Nat) (s : Slice R) :
+    (SOp.preloadUint n s).2 = (Py.ba2intU? (s.bits.take n)).map (fun (v : Nat) => (v : Int)) := by
+  rw [ba2intU_eq]; rfl
+
+theorem intOfBits_eq (bs : Bits) : Py.intOfBits? bs = if bs.isEmpty then none else some (natOfBits bs) := by
+  unfold Py.intOfBits?; cases bs <;> simp
+
+theorem src_preload_address_eq (s : Py.SliceSt R) : viewR addrM (preload_address s) = SOp.preloadAddress (view s) := by
+  have hcopy : ((load_address (⟨s.bits, s.refs.drop s.ref_offset, 0⟩ : Py.SliceSt R)).2).map addrM = (SOp.loadAddress (view s)).2 := by
+    have := congrArg Prod.snd (src_load_address_eq (⟨s.bits, s.refs.drop s.ref_offset, 0⟩ : Py.SliceSt R))
+    simpa [viewR, view] using this
+  unfold preload_address SOp.preloadAddress
+  simp only [preload_uint_val, preload_bits_val, copy_val, model_preloadUint_snd, Py.bindS, intOfBits_eq, ba2intS_eq]
+  have hb : (view s).bits = s.bits := rfl
+  rw [hb]
+  cases h2 : Py.ba2intU? (s.bits.take 2) with
+  | none => rfl
+  | some rem =>
+    simp only [Option.map]
+    by_cases r0 : rem = 0
+    · have r0' : ((rem : Nat) : Int) = 0 := by omega
+      have : ¬ rem ≠ 0 := by omega
+      rw [if_pos this, if_pos r0']; rfl
+    · have r0' : ¬ ((rem : Nat) : Int) = 0 := by omega
+      have : ¬ ¬ rem ≠ 0 := by omega
+      rw [if_neg this, if_neg r0']
+      by_cases r1 : rem = 1
+      · have r1' : ((rem : Nat) : Int) = 1 := by omega
+        rw [if_pos r1, if_pos r1']
+        simp only [Py.bindO]
+        by_cases he : ((s.bits.take 11).drop 2).isEmpty = true
+        · simp only [he, if_true]; rfl
+        · simp only [he, Bool.false_eq_true, if_false]
+          by_cases hl : natOfBits ((s.bits.take 11).drop 2) = 0
+          · have hn : ¬ natOfBits ((s.bits.take 11).drop 2) ≠ 0 := by omega
+            rw [if_neg hn, if_pos hl, hl]; rfl
+          · rw [if_pos hl, if_neg hl]
+            by_cases he2 : ((s.bits.take (11 + natOfBits ((s.bits.take 11).drop 2))).drop 11).isEmpty = true
+            · simp only [he2, if_true]; rfl
+            · simp only [he2, Bool.false_eq_true, if_false]; rfl
+      · have r1' : ¬ ((rem : Nat) : Int) = 1 := by omega
+        rw [if_neg r1, if_neg r1']
+        by_cases r2 : rem = 2
+        · have r2' : (((rem : Nat) : Int) != 2) = false := by simp; omega
+          have : ¬ rem ≠ 2 := by omega
+          rw [if_neg this, r2']
+          simp only [Bool.false_eq_true, if_false]
+          cases h3 : Py.ba2intU? (s.bits.take 3) with
+          | none => rfl
+          | some r3 =>
+            simp only [Option.map]
+            by_cases hodd : r3 % 2 ≠ 0
+            · have hodd' : ((((r3 : Nat) : Int) % 2) != 0) = true := by simp; omega
+              rw [if_pos hodd, hodd']
+              simp only [if_true, ← hcopy, Py.bindO]
+              cases (load_address (⟨s.bits, s.refs.drop s.ref_offset, 0⟩ : Py.SliceSt R)).2 <;> rfl
+            · have hodd' : ((((r3 : Nat) : Int) % 2) != 0) = false := by simp; omega
+              rw [if_neg hodd, hodd']
+              simp only [Bool.false_eq_true, if_false, Py.bindO, Py.slice]
+              have : (s.bits.take 267).take 11 = s.bits.take 11 := by rw [List.take_take]; simp
+              rw [this]
+              cases SOp.ba2intS ((s.bits.take 11).drop 3) <;> rfl
+        · have r2' : (((rem : Nat) : Int) != 2) = true := by simp; omega
+          rw [if_pos r2, r2']; rfl
+
+/-! ### `load_dict` / `preload_dict`: the `Maybe ^Cell` part (which cell is handed to the dictionary parser) -/
+
+theorem src_load_dict_eq (k : Nat) (kd vd : Unit) (s : Py.SliceSt R) : viewR id (load_dict k kd vd s) = SOp.loadDict (view s) := by
+  unfold load_dict SOp.loadDict
+  simp only [bind_eq, pure_eq]
+  refine viewR_bindS bitB id _ _ _ _ _ (src_load_bit_eq s) fun s1 v => ?_
+  by_cases hv : v ≠ 0
+  · have : bitB v = true := by simp [bitB, hv]
+    rw [if_pos hv, this, if_pos rfl]
+    refine viewR_bindS id id _ _ _ _ _ (src_load_ref_eq s1) fun s2 r => ?_
+    rfl
+  · have : bitB v = false := by simp [bitB, hv]
+    rw [if_neg hv, this, if_neg (by simp)]
+    rfl
+
+theorem src_preload_dict_eq (k : Nat) (kd vd : Unit) (s : Py.SliceSt R) : viewR id (preload_dict k kd vd s) = SOp.preloadDict (view s) := by
+  unfold preload_dict SOp.preloadDict
+  simp only [bind_eq, pure_eq]
+  refine viewR_bindS bitB id _ _ _ _ _ (src_preload_bit_eq s) fun s1 v => ?_
+  by_cases hv : v ≠ 0
+  · have : bitB v = true := by simp [bitB, hv]
+    rw [if_pos hv, this, if_pos rfl]
+    refine viewR_bindS id id _ _ _ _ _ (src_preload_ref_eq s1) fun s2 r => ?_
+    rfl
+  · have : bitB v = false := by simp [bitB, hv]
+    rw [if_neg hv, this, if_neg (by simp)]
+    rfl
+
 /-! ### what the view does not show: the bit reads leave the reference list and the offset alone, the reference reads the bits -/
 
 theorem src_refs_untouched (n : Nat) (s : Py.SliceSt R) :
